@@ -2,7 +2,7 @@
 From Coq Require Import List ZArith Bool.
 From Coq Require String.
 Import String.StringSyntax.
-From YS Require Import Base.Sexp Container.QueueWire Syntax.Indent Yarn.RunnerWire Markup.MarkupWire Yarn.BuiltinWire Yarn.BridgeWire.
+From YS Require Import Base.Sexp Container.QueueWire Syntax.Indent Yarn.RunnerWire Markup.MarkupWire Yarn.BuiltinWire Yarn.BridgeWire Syntax.TextLineWire.
 Import ListNotations.
 Local Open Scope string_scope.
 
@@ -18,6 +18,7 @@ Definition dispatch (e : sexp) : sexp :=
       else if tag_is t "unicode" then run_unicode_case args
       else if tag_is t "builtin" then run_builtin_case args
       else if tag_is t "bridge" then run_bridge_case args
+      else if tag_is t "textline" then run_textline_case args
       else if tag_is t "concurrent" then
         (* the model of a runner shares nothing: each case alone (Props/C18.v) *)
         tagged "all" (map (fun c => match untag c with
